@@ -240,6 +240,8 @@ def o4(W, ob):
                  'send_sync_request is called from %s outside the Synchronizing state: sync_random_requests could grow in a running session' % short(f.path), where(f, t.line))
 
 
+from . import helpers
+
 OBLIGATIONS = [
     ('C18.O1', 'inventory', 'every growable collection field of the sessions / endpoint / sync layer is listed; every growth site found by the writer-set analysis is '
      'recorded with its bounding construct; fixed-size collections have no growth site outside constructors.', o1),
@@ -248,4 +250,5 @@ OBLIGATIONS = [
     ('C18.O3', 'outgoing_local_inputs', 'inputs are queued only when there are remotes, and drained whenever there are remotes and local players (no stricter condition); '
      'the drain removes what it sends and follows the sent-cursor.', o3),
     ('C18.O4', 'sync_random_requests', 'nonces are created only while synchronizing (outside the property\'s synchronized session); listed.', o4),
+    ('C18.H', 'helpers the rules above rely on', 'the bodies of the helpers named by this property\'s rules compute what the rules assume (next_complete); see rules/helpers.py', helpers.bundle('next_complete')),
 ]
